@@ -913,6 +913,58 @@ func ruleC04R5(r *Run) {
 				}
 			}
 		}
+		// the groups removed together with group i are exactly its descendants: the scan starts at i+1 and goes on
+		// exactly while j < len(groups) && groups[j].end <= g.end (open children, end == -1, included)
+		for _, fa := range p.fieldAccesses("recordedBits") {
+			if !p.within(fa.Fn, fn) || fa.Field != "groups" || fa.Kind != "write" {
+				continue
+			}
+			ap, ok := p.resolve(fa.Instr.(*ssa.Store).Val).(*ssa.Call)
+			if !ok || p.calleeKey(ap.Common()) != "builtin:append" {
+				continue
+			}
+			tail, ok := p.resolve(ap.Common().Args[1]).(*ssa.Slice)
+			if !ok || tail.Low == nil {
+				continue
+			}
+			jp, ok := p.resolve(tail.Low).(*ssa.Phi)
+			if !ok {
+				r.Fail("(*recordedBits).removeGroup#span", fa.Instr.Pos(), "the groups kept after the removed one start at "+p.expr(tail.Low)+", which is not a scan index")
+				continue
+			}
+			J, G2 := p.expr(jp), "copy($rec.groups[$i])"
+			okInit, okStep := false, false
+			var contFacts []rel
+			for k, e := range jp.Edges {
+				pred := jp.Block().Preds[k]
+				if jp.Block().Dominates(pred) {
+					if isIncrementOf(p, e, jp) {
+						okStep = true
+						contFacts = p.facts(pred.Instrs[len(pred.Instrs)-1])
+						if iff, ok := pred.Instrs[len(pred.Instrs)-1].(*ssa.If); ok && pred.Succs[0] != pred.Succs[1] {
+							contFacts = append(contFacts, p.relOf(guard{Cond: iff.Cond, Pol: pred.Succs[0] == jp.Block()}))
+						}
+					}
+				} else if p.expr(e) == "($i + 1)" {
+					okInit = true
+				}
+			}
+			nJ, okLen, okEnd := 0, false, false
+			for _, f := range contFacts {
+				if !strings.Contains(f.X, J) && !strings.Contains(f.Y, J) {
+					continue
+				}
+				nJ++
+				if f.is(J, "<", "builtin:len($rec.groups)") {
+					okLen = true
+				}
+				if f.is("$rec.groups["+J+"].end", "<=", G2+".end") {
+					okEnd = true
+				}
+			}
+			r.Check("(*recordedBits).removeGroup#span", fa.Instr.Pos(), okInit && okStep && okLen && okEnd && nJ == 2, "the descendants of the removed group are the groups after it that end inside it (open ones included)",
+				"the scan for the descendants of the removed group is not `j := i+1; for j < len(groups) && groups[j].end <= g.end` ("+factsStr(contFacts)+"): groups inside the removed span survive with stale offsets and are pruned a second time from shifted data")
+		}
 		r.Check("(*recordedBits).removeGroup#slice", fn.Pos(), okData && okG, "deletes exactly data[g.begin:g.end] of g = groups[i]", "removeGroup does not delete exactly data[g.begin:g.end] of groups[i]")
 		// rebasing stores subtract n
 		n := 0
